@@ -8,6 +8,11 @@ sys.path.insert(0, os.path.join(os.path.dirname(os.path.abspath(__file__)), ".."
 from checks import lib
 
 
+def new_only(r):
+    """unexplained lines that the specification did not classify as a known finding"""
+    return [u for u in lib.unexplained(r) if u[1] == "new"]
+
+
 def nth(recs, pred, n=0):
     return [i for i, r in enumerate(recs) if pred(r)][n]
 
@@ -23,8 +28,8 @@ def main():
         lib.run_driver(exe, [mode, p, os.path.join(work, "scratch")] + args, env={"VERIF_SEED": "7"})
         ok, r, at = lib.validate_trace("Trace_OSSPS", p, heap="3g")
         recs = lib.read_ndjson(p)
-        print("good %s trace: %d lines, accepted=%s, unexplained=%s" % (mode, len(recs), ok, lib.unexplained(r)))
-        if not ok or lib.unexplained(r):
+        print("good %s trace: %d lines, accepted=%s, unexplained (not a known finding)=%s" % (mode, len(recs), ok, new_only(r)))
+        if not ok or new_only(r):
             return 1
         good[mode] = recs
     step = lambda r: r["e"] == "Step"
@@ -96,7 +101,7 @@ def main():
         p = os.path.join(work, "corrupt-%02d.ndjson" % n)
         lib.write_ndjson(p, recs)
         ok, r, at = lib.validate_trace("Trace_OSSPS", p, heap="3g")
-        bad = lib.unexplained(r)
+        bad = new_only(r)
         caught = bool(bad) or not ok
         print("corruption %d (%s: %s at line %d): %s %s" % (n, mode, what, at_line, "REJECTED" if caught else "ACCEPTED (!!)", bad[:3]))
         failed += not caught
